@@ -501,7 +501,9 @@ class TopCollector(ScoredCollector):
                 items.pop(i)
                 # Restore the heap invariant
                 heapify(items)
-                self.minscore = items[0][0] if items else 0
+                # The heap is no longer full, so until it fills up again any
+                # document can get in, whatever its score
+                self.minscore = 0
                 return
 
     def results(self):
